@@ -376,7 +376,15 @@ pub fn build(spec: &AutSpec) -> Option<BoxAut> {
             BoxAut(Box::new(Erase(t.clone(), |s: &usize| s.to_string())))
         }
         AutSpec::DfaD(t) => BoxAut(Box::new(Erase(TableDefaults(t.clone()), |s: &usize| s.to_string()))),
-        AutSpec::DfaE(t, e) => BoxAut(Box::new(Erase(TableEof(t.clone(), e.clone()), |s: &usize| s.to_string()))),
+        AutSpec::DfaE(t, e) => {
+            // half of them BORROWED: `impl Automaton for &T` must forward the hook too
+            if by_ref(spec) {
+                let r: &'static TableEof = Box::leak(Box::new(TableEof(t.clone(), e.clone())));
+                BoxAut(Box::new(Erase(r, |s: &usize| s.to_string())))
+            } else {
+                BoxAut(Box::new(Erase(TableEof(t.clone(), e.clone()), |s: &usize| s.to_string())))
+            }
+        }
         AutSpec::Lev(q, d) => BoxAut(Box::new(Erase(
             Levenshtein::new(q, *d).ok()?,
             |s: &Option<usize>| show_on(s),
